@@ -1,7 +1,58 @@
 (* C04 — Every search step maps a consistent solution to a consistent one. *)
 From VRP Require Import Base.Tac Model.Core Spec.Feasible Model.Eval Spec.Inv Model.Context Proofs.ContextP.
 
-(* removing a whole job from a feasible tour (JobRemovalTracker::try_remove_job: nothing re-checks the tour) keeps it
+(* ---- the checker that is run on every dumped state of the real operators decides the invariant ---- *)
+Theorem C04_checker_sound_complete : forall P d, inv_b P d = [] <-> Inv P d.
+Proof. exact inv_b_nil. Qed.
+
+Theorem C04_weak_checker_sound_complete : forall P d, inv0_b P d = true <-> Inv0 P d.
+Proof. exact inv0_b_spec. Qed.
+
+(* ---- every primitive keeps the invariant under its guard (the guard is what makes `step` return Some) ----
+   Inv0 = every problem job has exactly one home (one tour | unassigned | required | ignored), all mentioned ids are problem jobs,
+   the pending lists have no duplicates, each vehicle drives at most one tour and the registry's available set is the complement
+   of the used actors, every tour has start/end in place and is feasible by the step-by-step simulation (time windows, shift
+   end, capacity), multi jobs are whole and in the permitted order, demands are well-formed, compatibility and group rules
+   hold, pinned jobs are flagged, on their vehicle and in their order.  Hypotheses: `metric P` = the triangle inequality of
+   the duration matrix over the problem's locations 0..n-1 (needed by removals only), and locks with at least one job. *)
+Theorem C04_inv_primitive : forall P p d d',
+  metric P -> locks_nonempty P -> Inv0 P d -> step P p d = Some d' -> Inv0 P d'.
+Proof. exact inv0_step. Qed.
+
+(* hence every finite word of primitives *)
+Theorem C04_inv_word : forall P w d d',
+  metric P -> locks_nonempty P -> Inv0 P d -> run P w d = Some d' -> Inv0 P d'.
+Proof. exact inv0_history. Qed.
+
+(* an operator = any primitives, then restore (remove_empty_routes), then primitives that remove no job (insertions, failures,
+   finalize, departure shifts): it maps the weak invariant to the FULL invariant (no tour without jobs) *)
+Theorem C04_inv_operator : forall P o d d',
+  metric P -> locks_nonempty P -> Inv0 P d -> op_ok o = true ->
+  run P (word_of o) d = Some d' -> Inv P d'.
+Proof. exact inv_operator. Qed.
+
+(* and every finite history of such operators keeps the full invariant *)
+Theorem C04_inv_history : forall P os d d',
+  metric P -> locks_nonempty P -> Inv P d -> forallb op_ok os = true ->
+  run_ops P os d = Some d' -> Inv P d'.
+Proof. exact inv_history. Qed.
+
+(* merge of decomposed parts (DecomposeSearch::merge_best): parts that partition the homes of the problem jobs and use
+   disjoint actors merge into a consistent solution; the registry is recomputed from the used actors *)
+Theorem C04_inv_merge : forall P a b,
+  (forall s, In s (pw_jobs P) -> (homes a (j_id s) + homes b (j_id s) = 1)%nat) ->
+  (forall j, In j (mentioned a) \/ In j (mentioned b) -> known P j = true) ->
+  NoDup (d_required a ++ d_required b) -> NoDup (d_ignored a ++ d_ignored b) -> NoDup (d_unassigned a ++ d_unassigned b) ->
+  NoDup (used a ++ used b) -> (forall x, In x (used a ++ used b) -> actor_known P x = true) ->
+  (forall r, In r (d_routes a ++ d_routes b) -> RouteOK0 P r) ->
+  (forall g, In g (groups_of P) ->
+     (length (filter (has_group P g) (d_routes a)) + length (filter (has_group P g) (d_routes b)) <= 1)%nat) ->
+  (forall l, In l (pw_locks P) -> lock_ok a l = true \/ lock_ok b l = true) ->
+  Inv0 P (merge P a b).
+Proof. exact inv0_merge. Qed.
+
+(* ---- the tour-level core of the removal case ----
+   removing a whole job from a feasible tour (JobRemovalTracker::try_remove_job: nothing re-checks the tour) keeps it
    feasible when durations satisfy the triangle inequality, service times of the removed activities are non-negative and
    the job's own load balance never goes negative (static amounts >= 0, pickup before its delivery) *)
 Theorem C04_removal_feasible_metric : forall dur v j s r,
@@ -30,12 +81,39 @@ Proof.
   cbn. repeat split; lia.
 Qed.
 
-(* non-vacuity of the hypotheses: a metric, a feasible tour, a removable job *)
-Definition m_dur (a b : Z) : Z := Z.abs (a - b) * 10.
-Theorem C04_nonvacuous :
-  triangle m_dur /\ feasible m_dur (mkVeh INF 10 0 1 1 0 0) nm_tour = true /\ balanced 2 0 nm_tour /\
-  feasible m_dur (mkVeh INF 10 0 1 1 0 0) (drop_job 2 nm_tour) = true.
+(* the same at the level of the whole invariant: a consistent solution, a guarded PRemove, an inconsistent result *)
+Definition nm_world : pworld :=
+  mkPW 4 [0;10;1000;1000; 1000;0;10;1000; 1000;1000;0;10; 10;1000;1000;0] [0;10;1000;1000; 1000;0;10;1000; 1000;1000;0;10; 10;1000;1000;0]
+       [mkVs 0 (mkVeh INF 10 0 1 1 0 0) 0 (Some 0) 0 0]
+       [mkJob 1 1 0 0; mkJob 2 1 0 0; mkJob 3 1 0 0] [].
+Definition nm_state : dump :=
+  mkDump [mkRoute 0 (map (fun a => (a, 0)) nm_tour)] [] [] [] [] [].
+Theorem C04_inv_primitive_without_triangle_refuted :
+  exists P d d', locks_nonempty P /\ Inv P d /\ step P (PRemove 0 2 false) d = Some d' /\ ~ Inv0 P d'.
 Proof.
-  split; [unfold triangle, m_dur; intros; lia|]. split; [vm_compute; reflexivity|]. split; [cbn; repeat split; lia|].
-  vm_compute; reflexivity.
+  exists nm_world, nm_state. eexists. split; [intros l []|]. split; [apply inv_b_nil; vm_compute; reflexivity|].
+  split; [vm_compute; reflexivity|]. intros H. apply inv0_b_spec in H. vm_compute in H. discriminate.
+Qed.
+
+(* non-vacuity of the hypotheses: a metric, a consistent solution, an operator word that changes it, a consistent result *)
+Definition m_world : pworld :=
+  mkPW 4 [0;10;20;30; 10;0;10;20; 20;10;0;10; 30;20;10;0] [0;10;20;30; 10;0;10;20; 20;10;0;10; 30;20;10;0]
+       [mkVs 0 (mkVeh INF 10 0 1 1 0 0) 0 (Some 0) 0 0; mkVs 1 (mkVeh INF 10 0 1 1 0 0) 0 None 0 0]
+       [mkJob 1 1 0 0; mkJob 2 1 0 0; mkJob 3 1 0 0] [].
+Definition m_state : dump :=
+  mkDump [mkRoute 0 (map (fun a => (a, 0)) nm_tour)] [] [] [] [] [1].
+Definition m_word : op_word :=
+  ([PRemove 0 2 false], [PInsert 1 2 [(0%nat, (mkAct 2 2 0 0 60 (mkDemand 0 0 1 0) 0 0, 0))]; PFinalize]).
+Theorem C04_nonvacuous :
+  metric m_world /\ locks_nonempty m_world /\ Inv m_world m_state /\ op_ok m_word = true /\
+  exists d', run m_world (word_of m_word) m_state = Some d' /\ Inv m_world d' /\ length (d_routes d') = 2%nat.
+Proof.
+  split.
+  { intros a b c Ha Hb Hc. unfold loc_of in *. cbn [pw_n m_world] in *.
+    assert (Ea : a = 0 \/ a = 1 \/ a = 2 \/ a = 3) by lia.
+    assert (Eb : b = 0 \/ b = 1 \/ b = 2 \/ b = 3) by lia.
+    assert (Ec : c = 0 \/ c = 1 \/ c = 2 \/ c = 3) by lia.
+    destruct Ea as [->|[->|[->| ->]]], Eb as [->|[->|[->| ->]]], Ec as [->|[->|[->| ->]]]; vm_compute; congruence. }
+  split; [intros l []|]. split; [apply inv_b_nil; vm_compute; reflexivity|]. split; [reflexivity|].
+  eexists. split; [vm_compute; reflexivity|]. split; [apply inv_b_nil; vm_compute; reflexivity|reflexivity].
 Qed.
